@@ -242,3 +242,87 @@ V('c07-benign-write-helper', 'C07', 'silent', (E, '''        if let Some(d) = &s
         dynamic.reload_global.store(true, Ordering::Release);
         drop(guard);
     }'''))
+
+# ---- C06
+V('c06-write-on-err', 'C06', 'C06.R2', ('src/anycache.rs', '''            Err(err) => {
+                log::warn!("Error reloading \\"{}\\": {}", err.id(), err.reason());
+                None
+            }''', '''            Err(err) => {
+                log::warn!("Error reloading \\"{}\\": {}", err.id(), err.reason());
+                Some(deps)
+            }'''))
+V('c06-double-increment', 'C06', 'C06.R1', (E, '''    pub fn last_reload_id(&self) -> ReloadId {
+        self.either(|| ReloadId::NEVER, |this| this.reload.load())
+    }
+
+    /// Returns `true` if the asset has been reloaded since last call to this
+    /// method with **any** handle on this asset.
+    ///
+    /// Note that this method and [`reload_watcher`] are totally independant,
+    /// and the result of the two functions do not depend on whether the other
+    /// was called.
+    ///
+    /// [`reload_watcher`]: Self::reload_watcher
+    #[inline]
+    pub fn reloaded_global(&self) -> bool {
+        self.either(
+            || false,
+            |this| this.reload_global.swap(false, Ordering::Acquire),
+        )
+    }
+
+    #[cfg(feature = "hot-reloading")]
+    pub(crate) fn write''', '''    pub fn last_reload_id(&self) -> ReloadId {
+        self.either(|| ReloadId::NEVER, |this| this.reload.swap(ReloadId::NEVER))
+    }
+
+    /// Returns `true` if the asset has been reloaded since last call to this
+    /// method with **any** handle on this asset.
+    ///
+    /// Note that this method and [`reload_watcher`] are totally independant,
+    /// and the result of the two functions do not depend on whether the other
+    /// was called.
+    ///
+    /// [`reload_watcher`]: Self::reload_watcher
+    #[inline]
+    pub fn reloaded_global(&self) -> bool {
+        self.either(
+            || false,
+            |this| this.reload_global.swap(false, Ordering::Acquire),
+        )
+    }
+
+    #[cfg(feature = "hot-reloading")]
+    pub(crate) fn write'''))
+V('c06-global-not-reset', 'C06', 'C06.R1', (E, '''impl<T> Handle<T> {
+    #[inline]
+    fn either''', '''impl<T> Handle<T> {
+    /// Marks the asset as reloaded.
+    #[cfg(feature = "hot-reloading")]
+    pub fn touch(&self) {
+        if let Some(d) = &self.inner.dynamic {
+            d.reload_global.store(true, Ordering::Release);
+        }
+    }
+
+    #[inline]
+    fn either'''))
+V('c06-starts-at-one', 'C06', 'C06.R4', (E, 'reload: AtomicReloadId::new(),', 'reload: AtomicReloadId::with_value(ReloadId(1)),'))
+V('c06-push-without-visited-check', 'C06', 'C06.R3', (HD, '''        if sort_data.visited.contains(&key as &dyn Key) {
+            return;
+        }
+''', ''''''))
+V('c06-no-clear-of-changed', 'C06', 'C06.R3', (HP, '''    let to_update = deps.topological_sort_from(changed.iter());
+    changed.clear();''', '''    let to_update = deps.topological_sort_from(changed.iter());'''))
+V('c06-static-arm-true', 'C06', 'C06.R4', (E, '''impl<T> Handle<T>
+where
+    T: NotHotReloaded,''', '''impl<T> Handle<T> {
+    /// Non-atomic version of `reloaded_global`
+    pub fn peek_reloaded_global(&self) -> bool {
+        self.either(|| true, |this| this.reload_global.load(Ordering::Acquire))
+    }
+}
+
+impl<T> Handle<T>
+where
+    T: NotHotReloaded,'''))
